@@ -128,7 +128,10 @@ def decode_performance(
         A list of dicts for the alignment.
     """
 
-    snotes = score.note_array()
+    # the score note array, built the way to_matched_score builds it: notes sharing
+    # onset and pitch must come in the same order on both sides (Score.note_array()
+    # sorts the note array of its part once more, not necessarily keeping their order)
+    snotes = note_features.compute_note_array(score)
 
     if snote_ids is None:
         snote_ids = [n["id"] for n in snotes]
